@@ -47,7 +47,19 @@ func overlapRule(p *core.Program, r *core.Report, rule string) {
 		got := map[[2]string]token.Token{}
 		bad := ""
 		bound := false
-		for _, b := range fn.Blocks {
+		// the per-dimension test may sit in a predicate method of the package that the loop calls
+		var blocks []*ssa.BasicBlock
+		blocks = append(blocks, fn.Blocks...)
+		for _, c := range eng.Calls(fn) {
+			h := eng.StaticCallee(c)
+			if h == nil || h == fn || h.Pkg != fn.Pkg || len(h.Blocks) == 0 || h.Signature.Results().Len() != 1 {
+				continue
+			}
+			if tb, isB := h.Signature.Results().At(0).Type().Underlying().(*types.Basic); isB && tb.Kind() == types.Bool {
+				blocks = append(blocks, h.Blocks...)
+			}
+		}
+		for _, b := range blocks {
 			for _, in := range b.Instrs {
 				bo, ok := in.(*ssa.BinOp)
 				if !ok {
@@ -100,6 +112,24 @@ func overlapRule(p *core.Program, r *core.Report, rule string) {
 				if bo, ok := eng.BlockIf(b).Cond.(*ssa.BinOp); ok && eng.IsOrderedCmp(bo.Op) {
 					if _, _, _, ok1 := side(bo.X); ok1 {
 						blocked[[2]int{b.Index, 0}] = true
+					}
+				}
+				// the true edge of the predicate method that holds the tests
+				if c, ok := eng.BlockIf(b).Cond.(*ssa.Call); ok {
+					if h := c.Call.StaticCallee(); h != nil && h.Pkg == fn.Pkg && len(h.Blocks) > 0 {
+						holds := false
+						for _, hb := range h.Blocks {
+							for _, hin := range hb.Instrs {
+								if hbo, isB := hin.(*ssa.BinOp); isB && eng.IsOrderedCmp(hbo.Op) {
+									if _, _, _, ok1 := side(hbo.X); ok1 {
+										holds = true
+									}
+								}
+							}
+						}
+						if holds {
+							blocked[[2]int{b.Index, 0}] = true
+						}
 					}
 				}
 			}
@@ -171,6 +201,40 @@ func measureDelegationRule(p *core.Program, r *core.Report, rule string) {
 					}
 				}
 				if returnsIt {
+					return c.Value(), ""
+				}
+				continue
+			}
+			// the kernel as a method of (an embedded part of) the geometry: flat array and stride come from the
+			// receiver, the arguments are the offset and the end / ends
+			if callee.Signature.Recv() != nil && len(a) == 3 {
+				base := a[0]
+				for {
+					fa, isFA := base.(*ssa.FieldAddr)
+					if !isFA {
+						break
+					}
+					base = fa.X
+				}
+				zero, isZ := eng.ConstInt(a[1])
+				third := false
+				if s.third == "len" {
+					if lc, isL := a[2].(*ssa.Call); isL && eng.BuiltinName(lc) == "len" {
+						if bl, pl, okl := fieldLoad(lc.Call.Args[0]); okl && bl == recv && strings.HasSuffix(pl, ".flatCoords") {
+							third = true
+						}
+					}
+				} else if bt, pt, okt := fieldLoad(a[2]); okt && bt == recv && strings.HasSuffix(pt, s.third) {
+					third = true
+				}
+				switch {
+				case base != recv:
+					why = "the kernel method is not called on the geometry"
+				case !(isZ && zero == 0):
+					why = "the kernel does not start at offset 0"
+				case !third:
+					why = "the end argument is not the whole geometry's " + s.third
+				default:
 					return c.Value(), ""
 				}
 				continue
@@ -984,7 +1048,7 @@ func denominatorSignRule(p *core.Program, r *core.Report, rule string, targets [
 // squared distance exceeds threshold squared.
 func rdpScanRule(p *core.Program, r *core.Report, rule string) {
 	r.Rule(rule, "in dpWorker every candidate i in (start, end) reaches the call of distanceFromSegmentSquared(a, b, p_i): no path through the scan loop's body returns to the loop head without that call (no cheap reject); the split test compares the maximum of those squared distances with threshold*threshold", 2)
-	dw := mustFn(p, r, rule, "xy", "dpWorker")
+	dw := mustRdpWorker(p, r, rule)
 	if dw == nil {
 		return
 	}
@@ -1626,7 +1690,7 @@ func planarLayoutArgsRule(p *core.Program, r *core.Report, rule string) {
 func rdpSingleDecisionRule(p *core.Program, r *core.Report, rule string) {
 	r.Rule(rule, "SimplifyFlatCoords contains no floating-point comparison and no distance computation of its own: the result is read off the mask that dpWorker filled, dpWorker is the only caller of distanceFromSegmentSquared, and dpWorker does compare a float (positive control of the matcher) - so no fast path can keep or drop vertices by a different criterion than the recursive farthest-point test", 3)
 	sf := mustFn(p, r, rule, "xy", "SimplifyFlatCoords")
-	dw := mustFn(p, r, rule, "xy", "dpWorker")
+	dw := mustRdpWorker(p, r, rule)
 	ds := mustFn(p, r, rule, "xy", rdpDistanceName(p))
 	if sf == nil || dw == nil || ds == nil {
 		return
